@@ -5,7 +5,9 @@ C19 model: salting of user tokens before they are sent to a remote cluster.
   sdk/go/auth/auth.go                   LoadTokensFromHTTPRequest / LoadTokensFromHTTPRequestBody
   lib/controller/federation/conn.go     saltedTokenProvider
   lib/controller/federation.go          Handler.saltAuthToken (+ validateAPItoken's lookup), as FIXED by
-                                        the `fix:` commit that corrects the form content-type literal
+                                        the `fix:` commits 2f26f62 (content-type literal), a42002c (form
+                                        body always searched/stripped), b690c13+699c6fa (media type with
+                                        parameters), f99a29f (token cookie not forwarded)
   services/keepstore/proxy_remote.go    remoteProxy.remoteClient / the token part of remoteProxy.Get
 
 Strings are `List Char`. Go strings are byte strings; a byte `b` is represented by `Char.ofNat b`
@@ -109,11 +111,23 @@ def provOne (mac : Str → Str → List UInt8) (remote : Str) (lookup : Str → 
         | .ok s => .ok s
         | .error e => .error (.salt e)
 
-/-- the provider: `none` = no credentials in the request context; the loop stops at the first error -/
+/-- the provider's loop: tokens in order, stop at the first error -/
+def provAll (mac : Str → Str → List UInt8) (remote : Str) (lookup : Str → Lookup) :
+    List Str → Except ProvErr (List Str)
+  | [] => .ok []
+  | t :: ts =>
+    match provOne mac remote lookup t with
+    | .error e => .error e
+    | .ok o =>
+      match provAll mac remote lookup ts with
+      | .error e => .error e
+      | .ok os => .ok (o :: os)
+
+/-- the provider: `none` = no credentials in the request context -/
 def provider (mac : Str → Str → List UInt8) (remote : Str) (lookup : Str → Lookup) :
     Option (List Str) → Except ProvErr (List Str)
   | none => .error .noCreds
-  | some ts => ts.mapM (provOne mac remote lookup)
+  | some ts => provAll mac remote lookup ts
 
 /-- What `rpc.Conn.requestAndDecode` does with the provider's answer: the first token becomes the
 Authorization header, the others the `reader_tokens` parameter. -/
@@ -173,11 +187,11 @@ deriving Repr, DecidableEq
 
 inductive Body where
   | form (items : List QItem)   -- bytes that parse to these items (also the empty body)
-  | opaque                      -- bytes the model does not interpret
+  | raw                         -- bytes the model does not interpret
 deriving Repr, DecidableEq
 
 structure Req where
-  postLike : Bool               -- method is POST, PUT or PATCH
+  postLike : Bool               -- method is POST, PUT or PATCH (matters to `loaderBodyTokens` only)
   auth : AuthHdr
   query : List QItem
   cookie : CookieHdr
@@ -188,9 +202,27 @@ deriving Repr, DecidableEq
 def sOAuth2 : Str := "OAuth2".toList
 def sBearerWord : Str := "Bearer".toList
 def apiTokenKey : Str := "api_token".toList
-/-- the one content type for which a body is searched for a token — the literal in
-`auth.LoadTokensFromHTTPRequestBody` and (since the fix) in `saltAuthToken` -/
+/-- the media type of a form body -/
 def formCT : Str := "application/x-www-form-urlencoded".toList
+
+/-- ASCII white space (`strings.TrimSpace` on an ASCII string) -/
+def isSpace (c : Char) : Bool :=
+  c == ' ' || c == '\t' || c == '\n' || c == '\r' || c == Char.ofNat 11 || c == Char.ofNat 12
+
+def trimSpace (s : Str) : Str := ((s.dropWhile isSpace).reverse.dropWhile isSpace).reverse
+
+def lowerAscii (c : Char) : Char := if 'A' ≤ c ∧ c ≤ 'Z' then Char.ofNat (c.toNat + 32) else c
+
+/-- The media type of a Content-Type header value as `saltAuthToken` (and the receiving side)
+determine it: the text before the first ';' or ',', trimmed, lower-cased. (ASCII headers; see the
+notes for non-ASCII bytes.) -/
+def mediaTypeOf (ct : Str) : Str :=
+  (trimSpace (ct.takeWhile (fun c => c != ';' && c != ','))).map lowerAscii
+
+/-- does the Content-Type header declare a form body? (absent header: no) -/
+def isFormType : Option Str → Bool
+  | some ct => mediaTypeOf ct == formCT
+  | none => false
 
 /-- `strings.SplitN(s, " ", 2)` when it has two elements -/
 def splitSpace2 : Str → Option (Str × Str)
@@ -237,26 +269,40 @@ def encodeOrder (kvs : List (Str × Str)) : List (Str × Str) :=
 def dropKey (key : Str) (kvs : List (Str × Str)) : List (Str × Str) :=
   kvs.filter (fun kv => kv.1 ≠ key)
 
-/-- the body branch of `saltAuthToken` (taken only when no token was found elsewhere) -/
+/-- the body branch of `saltAuthToken` -/
 inductive BodyStage where
-  | skipped                                          -- content type is not the form literal
-  | failed                                           -- ParseForm error ⇒ saltAuthToken returns it
+  | skipped                                          -- the body is not declared as a form
+  | failed                                           -- url.ParseQuery error ⇒ saltAuthToken returns it
   | parsed (toks : List Str) (newBody : List (Str × Str))  -- body replaced by the re-encoded form
   | unmodelled
 deriving Repr, DecidableEq
 
+/-- the credential a form body contributes: its first `api_token` value unless that is empty -/
+def firstToken (pf : List (Str × Str)) : List Str :=
+  match valuesOf apiTokenKey pf with
+  | v :: _ => if v = [] then [] else [v]
+  | [] => []
+
+/-- A body declared as a form is always parsed (whatever the method, whether or not a token was
+found elsewhere) and replaced by its re-encoding without `api_token`. -/
 def bodyStage (r : Req) : BodyStage :=
-  if r.ctype ≠ some formCT then .skipped
+  if !isFormType r.ctype then .skipped
   else match r.body with
-    | .opaque => .unmodelled
+    | .raw => .unmodelled
     | .form items =>
-      if hasBad r.query || (r.postLike && hasBad items) then .failed
-      else
-        let pf := if r.postLike then goods items else []
-        let toks := match valuesOf apiTokenKey pf with
-          | v :: _ => if v = [] then [] else [v]
-          | [] => []
-        .parsed toks (encodeOrder (dropKey apiTokenKey pf))
+      if hasBad items then .failed
+      else .parsed (firstToken (goods items)) (encodeOrder (dropKey apiTokenKey (goods items)))
+
+/-- `auth.LoadTokensFromHTTPRequestBody` (no longer used by `saltAuthToken`; still the body loader
+of the API router): exact content-type comparison, `Request.ParseForm` semantics (body read only
+for POST/PUT/PATCH, query string parsed as well). `none` = error. -/
+def loaderBodyTokens (r : Req) : Option (List Str) :=
+  if r.ctype ≠ some formCT then some []
+  else match r.body with
+    | .raw => none
+    | .form items =>
+      if hasBad r.query || (r.postLike && hasBad items) then none
+      else some (firstToken (if r.postLike then goods items else []))
 
 inductive LegacyErr where
   | salted      -- auth.ErrSalted
@@ -307,12 +353,17 @@ inductive ItemsOut where
   | re (items : List (Str × Str))
 deriving Repr, DecidableEq
 
-/-- the rebuilt request; the Cookie header and every header other than Authorization are carried
-over unchanged -/
+inductive CookieOut where
+  | same            -- Cookie header untouched
+  | stripped        -- every cookie named arvados_api_token removed, the others kept
+deriving Repr, DecidableEq
+
+/-- the rebuilt request; every header other than Authorization and Cookie is carried over unchanged -/
 structure Fwd where
   auth : AuthOut
   query : ItemsOut
   body : ItemsOut
+  cookie : CookieOut
 deriving Repr, DecidableEq
 
 inductive LegacyOut where
@@ -322,33 +373,32 @@ inductive LegacyOut where
   | unmodelled
 deriving Repr, DecidableEq
 
+/-- the query string of the rebuilt request: re-encoded without `api_token` if it had one -/
+def queryOut (r : Req) : ItemsOut :=
+  if (goods r.query).any (fun kv => kv.1 == apiTokenKey)
+  then .re (encodeOrder (dropKey apiTokenKey (goods r.query)))
+  else .same
+
+/-- second half of `saltAuthToken`: `toks` are the credentials found, `bodyOut` what became of
+the body -/
+def finish (mac : Str → Str → List UInt8) (remote : Str) (db : Str → Option (Str × Str))
+    (r : Req) (toks : List Str) (bodyOut : ItemsOut) : LegacyOut :=
+  match toks with
+  | [] => .fwd ⟨.same, .same, bodyOut, .same⟩          -- no token: headers and URL as they are
+  | t :: _ =>
+    match legacyToken mac remote db t with
+    | .panic => .panic
+    | .err e => .err e
+    | .ok t' =>
+      if hasBad r.query then .err .other               -- url.ParseQuery error
+      else .fwd ⟨.set (sBearer ++ t'), queryOut r, bodyOut, .stripped⟩
+
 def saltAuthToken (mac : Str → Str → List UInt8) (remote : Str) (db : Str → Option (Str × Str))
     (r : Req) : LegacyOut :=
-  let toks0 := requestTokens r
-  let stage := if toks0 = [] then bodyStage r else .skipped
-  match stage with
+  match bodyStage r with
   | .failed => .err .other
   | .unmodelled => .unmodelled
-  | _ =>
-    let toks := match stage with
-      | .parsed ts _ => toks0 ++ ts
-      | _ => toks0
-    let bodyOut : ItemsOut := match stage with
-      | .parsed _ nb => .re nb
-      | _ => .same
-    match toks with
-    | [] => .fwd ⟨.same, .same, bodyOut⟩
-    | t :: _ =>
-      match legacyToken mac remote db t with
-      | .panic => .panic
-      | .err e => .err e
-      | .ok t' =>
-        if hasBad r.query then .err .other
-        else
-          let q : ItemsOut :=
-            if (goods r.query).any (fun kv => kv.1 == apiTokenKey)
-            then .re (encodeOrder (dropKey apiTokenKey (goods r.query)))
-            else .same
-          .fwd ⟨.set (sBearer ++ t'), q, bodyOut⟩
+  | .skipped => finish mac remote db r (requestTokens r) .same
+  | .parsed ts nb => finish mac remote db r (requestTokens r ++ ts) (.re nb)
 
 end ArvVerif.C19
